@@ -75,9 +75,9 @@ func partialRulesSSA(r *Run, scopeRule, onceRule, dataRule, orderRule string) {
 		return
 	}
 	inline := func(caller, callee *ssa.Function) bool {
-		return callee.Pkg == fn.Pkg && callee != fn && callee.Object() != nil && !callee.Object().Exported()
+		return pkgOf(callee) == fn.Pkg && callee != fn && fnObject(callee) != nil && !fnObject(callee).Exported()
 	}
-	pw := &pathWalker{inline: inline, unroll1: true, maxPaths: 100000, maxDepth: 5}
+	pw := &pathWalker{inline: inline, unroll1: true, maxPaths: 100000, maxDepth: 5, iterCopies: true}
 	pw.walk(fn)
 	if pw.overflow {
 		lost("paths of PartialHelper")
@@ -105,10 +105,29 @@ func partialRulesSSA(r *Run, scopeRule, onceRule, dataRule, orderRule string) {
 	}
 	nSuccess, nLayout, nPlain, nEscaped, nEscapedLayout := 0, 0, 0, 0, 0
 	for _, p := range pw.paths {
-		if p.end != "return" || len(p.results) != 2 {
+		// one level of the partial: up to its result, its hand-over to the layout by a call of the helper
+		// itself, or -- when the layout is done by going round a loop -- the moment the loop goes round
+		limitEv, limitDec := len(p.events), len(p.decisions)
+		var mark *pwMark
+		firstRender := -1
+		for ei, ev := range p.events {
+			if c, ok := ev.(*ssa.Call); ok && c.Call.StaticCallee() != nil && c.Call.StaticCallee().Name() == "Render" && pkgOf(c.Call.StaticCallee()) == fn.Pkg && firstRender < 0 {
+				firstRender = ei
+			}
+		}
+		for i := range p.marks {
+			// (a loop that goes round after the text was rendered; the loop over the data comes before)
+			if isLoopHeader(p.marks[i].block) && p.marks[i].block.Parent() == fn && firstRender >= 0 && p.marks[i].nEvents > firstRender {
+				mark = &p.marks[i]
+				limitEv, limitDec = mark.nEvents, mark.nDecisions
+				break
+			}
+		}
+		_ = limitDec
+		if mark == nil && (p.end != "return" || len(p.results) != 2) {
 			continue
 		}
-		// the helper context as this path has it: the cell the by-value parameter lives in
+		// the caller's scope: the context field of the by-value helper context parameter
 		isHelpCtxAddr := func(v ssa.Value) bool {
 			fa, ok := p.resolve(v).(*ssa.FieldAddr)
 			if !ok || fa.Field != embI {
@@ -121,27 +140,28 @@ func partialRulesSSA(r *Run, scopeRule, onceRule, dataRule, orderRule string) {
 			sv, ok := p.stores[objKey(al)]
 			return ok && p.resolve(sv) == ssa.Value(helpP) || al.Comment == helpP.Name()
 		}
-		var child ssa.Value
-		installAt := -1
+		isCallerScope := func(v ssa.Value) bool {
+			v = p.resolve(v)
+			switch x := v.(type) {
+			case *ssa.Field:
+				return x.Field == embI && p.resolve(x.X) == ssa.Value(helpP)
+			case *ssa.UnOp:
+				return x.Op == token.MUL && isHelpCtxAddr(x.X)
+			}
+			return false
+		}
 		var feeder, render, layoutCall *ssa.Call
 		nFeeder, nRender := 0, 0
 		var sets []*ssa.Call
 		var setAt []int
+		renderAt := -1
+		var ctxStores []*ssa.Store
 		jsEscapes := map[ssa.Value]ssa.Value{} // result -> operand
-		for ei, ev := range p.events {
+		for ei, ev := range p.events[:limitEv] {
 			switch x := ev.(type) {
 			case *ssa.Store:
 				if isHelpCtxAddr(x.Addr) {
-					v := p.resolve(stripIface(p.resolve(x.Val)))
-					if installAt < 0 {
-						installAt, child = ei, p.resolve(x.Val)
-						c, ok := v.(*ssa.Call)
-						if !ok || !c.Call.IsInvoke() || c.Call.Method.Name() != "New" {
-							add(scopeRule, "the context installed in the helper context is not a fresh child (<context>.New()) of the caller's scope", x.Pos())
-						}
-					} else {
-						add(scopeRule, "the helper context's scope is replaced more than once", x.Pos())
-					}
+					ctxStores = append(ctxStores, x)
 				}
 			case *ssa.Call:
 				switch {
@@ -150,9 +170,9 @@ func partialRulesSSA(r *Run, scopeRule, onceRule, dataRule, orderRule string) {
 					setAt = append(setAt, ei)
 				case x.Call.StaticCallee() == fn:
 					layoutCall = x
-				case x.Call.StaticCallee() != nil && x.Call.StaticCallee().Name() == "Render" && x.Call.StaticCallee().Pkg == fn.Pkg && len(x.Call.Args) == 2:
+				case x.Call.StaticCallee() != nil && x.Call.StaticCallee().Name() == "Render" && pkgOf(x.Call.StaticCallee()) == fn.Pkg && len(x.Call.Args) == 2:
 					nRender++
-					render = x
+					render, renderAt = x, ei
 				case x.Call.StaticCallee() == nil && !x.Call.IsInvoke():
 					if _, isB := x.Call.Value.(*ssa.Builtin); !isB && len(x.Call.Args) == 1 && x.Call.Signature().Results().Len() == 2 {
 						nFeeder++
@@ -165,9 +185,9 @@ func partialRulesSSA(r *Run, scopeRule, onceRule, dataRule, orderRule string) {
 				}
 			}
 		}
-		// success: the error result is nil, or the path hands over to the layout
+		// success: the error result is nil, the path hands over to the layout, or the loop goes round for the layout
 		tail := false
-		if layoutCall != nil {
+		if mark == nil && layoutCall != nil {
 			if e0, ok := p.resolve(p.results[0]).(*ssa.Extract); ok && e0.Tuple == ssa.Value(layoutCall) && e0.Index == 0 {
 				if e1, ok := p.resolve(p.results[1]).(*ssa.Extract); ok && e1.Tuple == ssa.Value(layoutCall) && e1.Index == 1 {
 					tail = true
@@ -178,23 +198,45 @@ func partialRulesSSA(r *Run, scopeRule, onceRule, dataRule, orderRule string) {
 				continue
 			}
 		}
-		if !tail && !p.knownNil(p.results[1]) {
+		if mark == nil && !tail && !p.knownNil(p.results[1]) {
 			continue
 		}
 		nSuccess++
-		// ---- scope
-		if installAt < 0 {
-			add(scopeRule, "the partial does not run in a child of the caller's scope (help.Context = help.New() is missing on a path)", p.ret.Pos())
+		// ---- once
+		if nFeeder != 1 || nRender != 1 {
+			add(onceRule, fmt.Sprintf("feeder calls %d, Render calls %d on a success path", nFeeder, nRender), fn.Pos())
+			continue
 		}
-		for i, s := range sets {
-			if installAt < 0 || setAt[i] < installAt {
-				add(scopeRule, "partial data is written into the caller's scope (Set before the child scope exists)", s.Pos())
+		if p.resolve(feeder.Call.Args[0]) != ssa.Value(nameP) {
+			add(onceRule, "the feeder is asked for something else than the partial's name", feeder.Pos())
+		}
+		isExtract := func(v ssa.Value, call *ssa.Call, idx int) bool {
+			ex, ok := p.resolve(v).(*ssa.Extract)
+			return ok && ex.Tuple == ssa.Value(call) && ex.Index == idx
+		}
+		if !isExtract(render.Call.Args[0], feeder, 0) {
+			add(onceRule, "what is rendered is not the text the feeder returned", render.Pos())
+		}
+		// ---- scope: what the text is rendered in is a fresh child of the caller's scope ...
+		child := p.resolve(render.Call.Args[1])
+		okChild := false
+		if c, ok := p.resolve(stripIface(child)).(*ssa.Call); ok && c.Call.IsInvoke() && c.Call.Method.Name() == "New" && len(c.Call.Args) == 0 && isCallerScope(c.Call.Value) {
+			okChild = true
+		}
+		if !okChild {
+			add(scopeRule, "the partial does not run in a child of the caller's scope (the context it is rendered in is not <caller's context>.New())", render.Pos())
+			add(dataRule, "the partial text must be rendered with the child scope that received the data", render.Pos())
+		}
+		// ... every Set of the level goes to that child, before the text is rendered; and if the helper
+		// context itself is given a new scope, it is that child
+		for i, sc := range sets {
+			if p.resolve(sc.Call.Value) != child {
+				add(scopeRule, "partial data is set on another context than the child the partial is rendered in (it is written into the caller's scope, or lost)", sc.Pos())
 				continue
 			}
-			if child != nil && p.resolve(s.Call.Value) != child {
-				add(scopeRule, "partial data is set on another context than the child the partial is rendered in", s.Pos())
+			if setAt[i] > renderAt {
+				add(dataRule, "data is set after the partial was rendered", sc.Pos())
 			}
-			// the key and the value set come from ranging over the data parameter
 			if dataRule != "" {
 				fromData := func(v ssa.Value) bool {
 					v = p.resolve(stripIface(p.resolve(v)))
@@ -209,29 +251,15 @@ func partialRulesSSA(r *Run, scopeRule, onceRule, dataRule, orderRule string) {
 					rg, ok := nx.Iter.(*ssa.Range)
 					return ok && p.resolve(rg.X) == ssa.Value(dataP)
 				}
-				if !fromData(s.Call.Args[0]) || !fromData(s.Call.Args[1]) {
-					add(dataRule, "what is bound in the child scope is not the caller's data map, entry by entry", s.Pos())
+				if !fromData(sc.Call.Args[0]) || !fromData(sc.Call.Args[1]) {
+					add(dataRule, "what is bound in the child scope is not the caller's data map, entry by entry", sc.Pos())
 				}
 			}
 		}
-		// ---- once
-		if nFeeder != 1 || nRender != 1 {
-			add(onceRule, fmt.Sprintf("feeder calls %d, Render calls %d on a success path", nFeeder, nRender), p.ret.Pos())
-			continue
-		}
-		if p.resolve(feeder.Call.Args[0]) != ssa.Value(nameP) {
-			add(onceRule, "the feeder is asked for something else than the partial's name", feeder.Pos())
-		}
-		isExtract := func(v ssa.Value, call *ssa.Call, idx int) bool {
-			ex, ok := p.resolve(v).(*ssa.Extract)
-			return ok && ex.Tuple == ssa.Value(call) && ex.Index == idx
-		}
-		if !isExtract(render.Call.Args[0], feeder, 0) {
-			add(onceRule, "what is rendered is not the text the feeder returned", render.Pos())
-		}
-		if child == nil || p.resolve(render.Call.Args[1]) != child {
-			add(scopeRule, "the partial text must be rendered with the child scope that received the data", render.Pos())
-			add(dataRule, "the partial text must be rendered with the child scope that received the data", render.Pos())
+		for _, st := range ctxStores {
+			if p.resolve(st.Val) != child {
+				add(scopeRule, "the helper context is given a scope other than the child the partial is rendered in", st.Pos())
+			}
 		}
 		// ---- order / conversion
 		// part: the rendered text, possibly JS-escaped (once)
@@ -279,16 +307,16 @@ func partialRulesSSA(r *Run, scopeRule, onceRule, dataRule, orderRule string) {
 			}
 			return nil, false
 		}
-		if tail {
-			nLayout++
-			// the layout's data: a fresh map whose "yield" is template.HTML(part)
-			if _, fresh := p.resolve(layoutCall.Call.Args[1]).(*ssa.MakeMap); !fresh {
-				add(orderRule, "the layout must be given a fresh data map that holds the yield (not the caller's map, whose entries would leak into the layout and be changed for the caller)", layoutCall.Pos())
+		// the layout's data: a fresh map whose "yield" is template.HTML(part)
+		checkLayoutData := func(m ssa.Value, at token.Pos) {
+			mm := p.resolve(m)
+			if _, fresh := mm.(*ssa.MakeMap); !fresh {
+				add(orderRule, "the layout must be given a fresh data map that holds the yield (not the caller's map, whose entries would leak into the layout and be changed for the caller)", at)
 			}
 			okYield := false
-			for _, ev := range p.events {
+			for _, ev := range p.events[:limitEv] {
 				mu, ok := ev.(*ssa.MapUpdate)
-				if !ok || p.resolve(mu.Map) != p.resolve(layoutCall.Call.Args[1]) {
+				if !ok || p.resolve(mu.Map) != mm {
 					continue
 				}
 				k, isC := p.constOf(stripIface(p.resolve(mu.Key)))
@@ -305,9 +333,51 @@ func partialRulesSSA(r *Run, scopeRule, onceRule, dataRule, orderRule string) {
 				}
 			}
 			if !okYield {
-				add(orderRule, "the layout's yield must be the rendered (and, for JavaScript, escaped) text typed template.HTML", layoutCall.Pos())
+				add(orderRule, "the layout's yield must be the rendered (and, for JavaScript, escaped) text typed template.HTML", at)
 			}
-			// no JS escape after the layout call was made is possible on a tail path; but the layout name must come from the data
+		}
+		switch {
+		case tail:
+			nLayout++
+			checkLayoutData(layoutCall.Call.Args[1], layoutCall.Pos())
+			continue
+		case mark != nil:
+			// the loop goes round: the variables it carries are the layout's name, its data and the scope to nest in
+			var newData, newName, newScope ssa.Value
+			for _, ins := range mark.block.Instrs {
+				phi, ok := ins.(*ssa.Phi)
+				if !ok {
+					break
+				}
+				var nv ssa.Value
+				for _, c := range p.copies[phi] {
+					if v, ok := p.alias[c.(ssa.Value)]; ok {
+						nv = p.resolve(v)
+					}
+				}
+				if nv == nil {
+					continue
+				}
+				switch {
+				case isBasicKind(phi.Type(), types.String):
+					newName = nv
+				case namedIs(phi.Type(), hctxPath, "Context"):
+					newScope = nv
+				default:
+					if _, isMap := phi.Type().Underlying().(*types.Map); isMap {
+						newData = nv
+					}
+				}
+			}
+			nLayout++
+			if newData == nil || newName == nil {
+				add(onceRule, "the loop that renders the layout does not carry the layout's name and data", fn.Pos())
+				continue
+			}
+			checkLayoutData(newData, firstPos(mark.block))
+			if newScope != nil && newScope != child {
+				add(scopeRule, "the layout is not rendered in a scope nested in the partial's", firstPos(mark.block))
+			}
 			continue
 		}
 		nPlain++
@@ -346,7 +416,7 @@ func partialRulesSSA(r *Run, scopeRule, onceRule, dataRule, orderRule string) {
 		r.Ok(rule, name, con, w.Pos(fn.Pos()), okHow)
 	}
 	how := fmt.Sprintf("%d success path(s) (%d plain, %d through a layout)", nSuccess, nPlain, nLayout)
-	emit(scopeRule, "child scope of the partial", how+": child installed before any Set, every Set and the Render use it")
+	emit(scopeRule, "child scope of the partial", how+": the text is rendered in a fresh child of the caller's scope; every Set of the level goes to that child")
 	emit(onceRule, "feeder once, Render once per level", how)
 	emit(dataRule, "data reaches the partial", how+": the entries ranged over in the data parameter are set on the child that is rendered with")
 	emit(orderRule, "render < JS escape < layout; result and yield are template.HTML(part)", how)
@@ -374,7 +444,7 @@ func blockWithOnceRuleSSA(r *Run, rule string) {
 		}
 		n++
 		inline := func(caller, callee *ssa.Function) bool {
-			return callee.Pkg == fn.Pkg && callee != m.block && callee != m.sink && callee.Object() != nil && !callee.Object().Exported()
+			return pkgOf(callee) == fn.Pkg && callee != m.block && callee != m.sink && fnObject(callee) != nil && !fnObject(callee).Exported()
 		}
 		pw := &pathWalker{inline: inline, unroll1: true, maxPaths: 50000, maxDepth: 5}
 		pw.walk(fn)
